@@ -41,15 +41,24 @@ UNIVERSE_SRC = textwrap.dedent('''
 			self.fac, self.args, self.extras = 's3b', [b], []
 			LOG.append(self)
 			self.serial = len(LOG)
-	def g1(a: S1, t: str): return Obj('g1', [a], [t])
+	class K1:
+		"""two factories that share their short name: only the qualified name tells them apart"""
+		@staticmethod
+		def make(a: S1, t: str): return Obj('g1', [a], [t])
+	class K3:
+		@staticmethod
+		def make(t: str): return Obj('g3', [], [t])
+	g1 = K1.make
+	g3 = K3.make
+	ALIAS = {'K1.make': 'g1', 'K3.make': 'g3'}
 	class _G2:
 		"""a callable object used as factory: annotations come from __call__"""
 		def __init__(self):
 			self.__module__ = 'verif_di_syms'
 			self.__qualname__ = 'g2'
+			self.__name__ = 'g2'
 		def __call__(self, a: S1, b: S2, n: int): return Obj('g2', [a, b], [n])
 	g2 = _G2()
-	def g3(t: str): return Obj('g3', [], [t])
 ''')
 
 SYMS = {'s1': 'S1', 's2': 'S2', 's3': 'S3'}
@@ -100,7 +109,8 @@ class Replayer:
 	def facname(self, obj: Any) -> str:
 		if isinstance(obj, str):
 			return obj.split('.')[-1]
-		return getattr(obj, '__qualname__', None) or type(obj).__qualname__
+		name = getattr(obj, '__qualname__', None) or type(obj).__qualname__
+		return self.U.ALIAS.get(name, name)
 
 	def step(self, op: dict) -> dict:
 		"""Execute one operation; returns the observed label fields {res, ret}"""
@@ -154,7 +164,7 @@ class Replayer:
 				inj[self.symname(klass.__name__)] = self.facname(f)
 			for klass, obj in private(di, 'DI', 'instances').items():
 				inst[self.symname(klass.__name__)] = obj.serial
-			memo = sorted(k.split('.')[-1] for k in private(di, 'DI', 'invocations'))
+			memo = sorted(self.U.ALIAS.get(k.split('.', 1)[-1], k.split('.', 1)[-1]) for k in private(di, 'DI', 'invocations'))
 			conts.append({'defs': defs, 'inj': inj, 'inst': inst, 'memo': memo})
 			# observation through the public API must agree with the projection
 			for s in SYMS:
